@@ -670,7 +670,6 @@ func facts() map[string]string {
 		"cfgDefaultSendTicker":     durNs(tagDefault(tc, "SendTicker")),
 		"cfgDefaultSpanLimit":      tagDefault(tc, "SpanLimit"),
 		"cfgDefaultMaxExpired":     tagDefault(tc, "MaxExpiredTraces"),
-		"descendantCountBits":      strconv.Itoa(reflect.TypeOf((&types.Trace{}).DescendantCount()).Bits()),
 		"maxExpiredIntBits":        strconv.Itoa(strconv.IntSize),
 	}
 }
